@@ -91,7 +91,10 @@ def expected_raster(gspecs, values, t, f, fill):
                 known.ravel()[near] = False
                 continue
             if not g.is_valid:
-                near = shapely.distance(pts, g) <= 1.0
+                # snapping vertices to bin indices can make a polygon invalid (a hole poking out of its shell,
+                # self-touching rings): "inside" is then ambiguous (even-odd vs. union), nothing in its envelope is judged
+                x0, y0, x1, y1 = g.bounds
+                near = shapely.distance(pts, shapely.box(x0 - 1, y0 - 1, x1 + 1, y1 + 1)) <= 0
                 known.ravel()[near] = False
                 continue
             inside = shapely.contains(g, pts)
